@@ -202,6 +202,11 @@ def _root_.Coba.C08.FState.recv_sub_ok (s : FState) (c : Cfg) : Bool :=
   s.b.recv.all (fun o => s.b.recv.count o ≤ (allOuts c).count o) &&
   (match s.b.excs with | e :: _ => (allErrs c).contains e | [] => true)
 
+/-- phase 6: replay of a joint trace through the product system; -> (index of the first rejected step, final state, accepted) -/
+def replay2 (c1 c2 : Cfg) : Nat → State × State → List Action2 → Nat × (State × State) × Bool
+  | i, s, [] => (i, s, true)
+  | i, s, a :: as => if enabled2 c1 c2 s a then replay2 c1 c2 (i + 1) (step2 c1 c2 s a) as else (i, s, false)
+
 /-- request {"op":"trace","cfg":…,"trace":[…]} or {"op":"inproc","cfg":…} -/
 def handle (req : Json) : Except String Json := do
   let c ← parseCfg (← field req "cfg")
@@ -302,6 +307,27 @@ def handle (req : Json) : Except String Json := do
                ("key_pending", ofList ofNat r.st.r.keyPending), ("key_wait", ofList ofNat r.st.r.keyWait),
                ("main_err", Json.bool r.st.mainErr), ("skipped", Json.bool r.st.skipped), ("budget_left", ofNat r.st.budget),
                ("mu_decreasing", Json.bool r.muOk), ("within_bound", Json.bool (r.steps ≤ 6 * mu c (init c)))])
+  | "trace2" =>
+    -- phase 6: the joint log of two calls alive together on one object (`c` = 0 / 1 on every action) through the product system
+    let c2 ← parseCfg (← field req "cfg2")
+    let tr ← arr (← field req "trace")
+    let acts ← tr.mapM (fun j => do
+      let a ← parseAction j
+      let k ← nat (← field j "c")
+      pure (if k == 0 then Action2.first a else Action2.second a))
+    let r := replay2 c c2 0 (init c, init c2) acts
+    let s := r.2.1
+    let agree : Bool := decide (runTrace c (init c) (proj1 acts) = some s.1) && decide (runTrace c2 (init c2) (proj2 acts) = some s.2)
+    pure (obj [("accepted", Json.bool r.2.2), ("at", ofNat r.1),
+               ("outcomes", Json.arr #[outcomeJson (outcome s.1), outcomeJson (outcome s.2)]),
+               ("projections_agree", Json.bool (!r.2.2 || agree)),
+               ("mu", ofNat (mu c s.1 + mu c2 s.2))])
+  | "rwproto" =>
+    -- phase 6: the read_wait protocol programs (compared with what the REAL MyProcessLine.start/run and the caller's loop do)
+    let b (k : String) : Bool := (match (fieldD req k (Json.bool false)).getBool? with | .ok x => x | .error _ => false)
+    pure (obj [("program", ofList ofNat ((workerProgram (b "has_wait")).map RWOp.code)),
+               ("registers", Json.bool (startRegisters (b "store") (b "non_empty"))),
+               ("caller_sets", Json.bool (callerSets (b "store") (b "is_key")))])
   | op => throw s!"unknown op {op}"
 
 end Coba.C08.Driver
